@@ -52,8 +52,10 @@ def run(ctx):
     if any(x["kind"] == "fuzz" and x.get("err") for x in results):
         raise vlib.MachineryError("reply fuzz did not produce results: %s" % [x for x in results if x["kind"] == "fuzz"])
     L, scs, viols = base.validate(ctx, tp)
-    account(ctx, scs)
+    vac = account(ctx, scs)
     base.report(ctx, L, scs, viols, "C16")
+    if vac and not ctx.violations:
+        raise vlib.MachineryError(vac)
     if getattr(ctx, "selftest", False):
         def m1(L):
             for d in L:
@@ -98,4 +100,5 @@ def account(ctx, scs):
                         "announces": [(d["now"], d["k"], d["ev"], d["res"]) for _, d in s["lines"] if d["op"] == "ann"][:12]})
             break
     if ob["C16.reply"] == 0 or ob["C16.tier.next"] == 0 or cls["kind=udpshare"] == 0 or cls["three_full_cycles_of_failures"] == 0:
-        raise vlib.MachineryError("vacuous run: %s %s" % (dict(ob), dict(cls)))
+        return "vacuous run: %s %s" % (dict(ob), dict(cls))
+    return None
